@@ -95,6 +95,20 @@ BYTES_OPS = [
     ("re_unixnl", _rx(rb"(?<!\r)\n", "sub")), ("re_hunk", _rx(rb"\@\@ ([^@]*) \@\@( (.*))?\n", "match")),
 ]
 
+UTF8_BYTES = bytes([0x41, 0xC3, 0xA9, 0xE2, 0x82, 0xED, 0xA0, 0xF0, 0x9F, 0xC1, 0xFF])
+UTF8_OPS = [
+    ("dec_strict", lambda s: s.decode("utf-8")), ("dec_surr", lambda s: s.decode("utf-8", "surrogateescape")),
+    ("dec_repl", lambda s: s.decode("utf-8", "replace")), ("dec_ign", lambda s: s.decode("utf-8", "ignore")),
+    ("dec_ascii_surr", lambda s: s.decode("ascii", "surrogateescape")),
+    ("rt_surr", lambda s: s.decode("utf-8", "surrogateescape").encode("utf-8", "surrogateescape")),
+]
+UTF8_STR = "a\xe9€\udce9\ud800\U0001d11e\x7f߿"
+UTF8_STR_OPS = [
+    ("enc_strict", lambda s: s.encode("utf-8")), ("enc_surr", lambda s: s.encode("utf-8", "surrogateescape")),
+    ("enc_ascii_surr", lambda s: s.encode("ascii", "surrogateescape")), ("enc_repl", lambda s: s.encode("utf-8", "replace")),
+    ("rt", lambda s: s.encode("utf-8", "surrogateescape").decode("utf-8", "surrogateescape")),
+]
+
 DIGIT_ALPHA = "0a 1-_+"
 INT_OPS = [("int10", _int), ("int16", _int16)]
 
@@ -108,7 +122,7 @@ def _harness(kind, op, n, alpha, pinned):
     return h
 
 
-def run(kind, ops, alpha, nmax, stats):
+def run(kind, ops, alpha, nmax, stats, pinned_max=None):
     empty = LiftedSet()
     for name, op in ops:
         for n in range(0, nmax + 1):
@@ -117,6 +131,8 @@ def run(kind, ops, alpha, nmax, stats):
             if out.status != "ok":
                 print("SELFTEST FAIL (free) %s/%s n=%d: %s %s" % (kind, name, n, out.status, out.msg))
                 return False
+            if pinned_max is not None and n > pinned_max:
+                continue
             for t in itertools.product(alpha, repeat=n):
                 pinned = "".join(t) if kind == "str" else bytes(t)
                 out = explore_serial(_harness(kind, op, n, alpha, pinned), empty, {}, timeout=60, validate_every=1)
@@ -154,6 +170,8 @@ def main():
     ok = run("str", STR_OPS, STR_ALPHA, 3 if quick else 4, stats)
     ok = ok and run("bytes", BYTES_OPS, BYTES_ALPHA, 3 if quick else 4, stats)
     ok = ok and run("str", INT_OPS, DIGIT_ALPHA, 3, stats)
+    ok = ok and run("bytes", UTF8_OPS, UTF8_BYTES, 3 if quick else 4, stats, 2 if quick else 3)
+    ok = ok and run("str", UTF8_STR_OPS, UTF8_STR, 2 if quick else 3, stats)
     ok = ok and render_test(stats)
     print("symx selftest: %s (%d symbolic paths validated, %d pinned inputs, %.1fs)" %
           ("OK" if ok else "FAILED", stats["free_paths"], stats["pinned"], time.time() - t0))
